@@ -170,6 +170,19 @@ Section Rules.
       exists s1, s2. split; [assumption|]. split; [eapply ext_trans; eassumption|]. auto.
   Qed.
 
+  Lemma foldM_app_inv {A B} (fn : B -> A -> M B) pre x post acc s r s' :
+    (forall b0 y, pres (fn b0 y)) -> wf s -> foldM fn (pre ++ x :: post) acc s = Ok (r, s') ->
+    exists b1 s1 b2 s2, wf s1 /\ ext s s1 /\ fn b1 x s1 = Ok (b2, s2) /\ wf s2 /\ ext s1 s2 /\ wf s' /\ ext s2 s'.
+  Proof.
+    intros P. revert acc s. induction pre as [|p pre IH]; intros acc s W H; cbn [app foldM] in H.
+    - apply bind_inv in H as (b2 & s2 & H1 & H). destruct (P acc x _ _ _ W H1) as [W2 E2].
+      destruct (pres_foldM fn post P _ _ _ _ W2 H) as [W' E'].
+      exists acc, s, b2, s2. repeat (split; [first [assumption|apply ext_refl]|]). assumption.
+    - apply bind_inv in H as (b0 & s0 & H1 & H). destruct (P acc p _ _ _ W H1) as [W0 E0].
+      destruct (IH _ _ W0 H) as (b1 & s1 & b2 & s2 & X1 & X2 & X3 & X4 & X5 & X6 & X7).
+      exists b1, s1, b2, s2. split; [assumption|]. split; [eapply ext_trans; eassumption|]. auto.
+  Qed.
+
   (* the initialiser of field k is any expression whose value is known to have the leaf type ta (a literal; a call of a
      function with a monomorphic signature: TwoDecls.v) *)
   Lemma rej_blob_field_y pre lit post self sp ta f ctx s :
@@ -199,11 +212,11 @@ Section Rules.
     destruct (push_spec _ _ _ _ W4 Hp) as (W5 & E5 & Hgb).
     apply bind_inv in H1 as (sty & s6 & Hs & H1). apply ShapesDecl_var_ty_inv in Hs as [-> ->].
     apply bind_inv_pres0 in H1 as (u1 & s7 & Hu1 & W7 & E7 & H1); [|apply (TcInv.pres_unify G PG)|assumption].
-    apply bind_inv_pres0 in H1 as (ret0 & s8 & Hr0 & W8 & E8 & H1); [|apply pres_push|assumption].
+    assert (W8 : wf s7) by exact W7. assert (E8 : ext s7 s7) by apply ext_refl.
     apply bind_inv in H1 as (u2 & s9 & Hit & H1).
-    match type of Hit with iterM ?fn _ _ = _ =>
-      destruct (iterM_app_inv fn pre (k, lit) post s8 u2 s9) as (sa & sb & Wa & Ea & Hx & Wb & Eb & W9 & E9);
-        [intros y; pose proof PG; pose proof (PA f); prs; apply (ap_expr _ (PA f))|assumption|exact Hit|]
+    match type of Hit with foldM ?fn _ _ _ = _ =>
+      destruct (foldM_app_inv fn pre (k, lit) post None s7 u2 s9) as (b1 & sa & b2 & sb & Wa & Ea & Hx & Wb & Eb & W9 & E9);
+        [intros b0 y; pose proof PG; pose proof (PA f); prs; apply (ap_expr _ (PA f))|assumption|exact Hit|]
     end.
     cbn [fst snd] in Hx.
     (* the field itself: its fresh class gets the type of the literal *)
@@ -215,7 +228,7 @@ Section Rules.
     pose proof (Hy _ _ _ _ Wa E0a Hl) as Hety. cbn [snd] in Hety.
     apply bind_inv_pres0 in Hx as (u3 & sd & _ & Wd & Ed & Hx); [|pose proof PG; prs|assumption].
     destruct (flookup k given) as [[gsp ft]|] eqn:Eg; [|discriminate].
-    apply bind_inv in Hx as (u4 & se & Hu4 & Hx). injection Hx as <-.
+    apply bind_inv in Hx as (u4 & se & Hu4 & Hx). injection Hx as _ <-.
     destruct (unify_result_head _ _ _ _ _ _ _ Wd Hu4) as (We & Ee & _ & Heq4).
     assert (Hft : head se ft = Some ta).
     { rewrite <- Heq4. eapply head_keep; [exact Ee| |exact Rl]. exact (head_keep _ _ _ _ Ed Hety Rl). }
